@@ -23,6 +23,11 @@ def run(tier, seed):
         run_hex(rep, f"HW4 x single-byte / RLP-boundary values prune={prune}", universe="HW4", values=("Z00", "B80", "V55", "V56"), prune=prune, props=P)
         run_hex(rep, f"HL4xSL direct prune={prune} (32-byte keys, extensions longer than 32 nibbles)", universe="HL", values=("S", "L"), prune=prune, props=P)
     for prune in (False, True):
+        run_hex(rep, f"HS4xSL direct prune={prune} (identical sub-tries: nodes referenced twice)", universe="HS4", values=("S", "L"), prune=prune, props=P)
+        run_hex(rep, f"HP3 x sentinel-valued contents prune={prune} (value == hash of the blank root)", universe="HP3", values=("S", "VBNH"),
+                prune=prune, props=P)
+        run_hex(rep, f"H3xSL chains of 3 consecutive operations on ONE live object prune={prune}", universe="H3", values=("S", "L"), prune=prune,
+                props=P, chain=3)
         run_hex(rep, f"H3xSL pairs of consecutive events on ONE live object (direct + batches) prune={prune}", universe="H3", values=("S", "L"),
                 prune=prune, props=P, batch_len=1, exits=("commit", "abort"), pairs=True)
     if tier == "thorough":
